@@ -164,6 +164,8 @@ func (s *smanager) GetKernMethod(c, method string) (contract.KernMethod, error) 
 // ---- scenario ---------------------------------------------------------------------------------
 
 type scenario struct {
+	signers []int  // when set, certificates are signed by this set instead of A (reorg differential)
+	fork    int    // 0 = the original chain; f > 0: another branch leaving it after block 2 (other block ids)
 	Cons    string // "tdpos" | "xpoa"
 	A, B, Z []int  // universe indices
 	m       *Material
@@ -174,6 +176,14 @@ type scenario struct {
 
 func blockID(h int64) []byte {
 	return []byte(fmt.Sprintf("verif-c14-block-%02d-id-0123456789abcdef", h))
+}
+
+// bid: id of the block at height h on the scenario's current branch.
+func (s *scenario) bid(h int64) []byte {
+	if s.fork == 0 || h <= 2 {
+		return blockID(h)
+	}
+	return []byte(fmt.Sprintf("verif-c14-fork%d-blk-%02d-id-0123456789abcdef", s.fork, h))
 }
 
 func (s *scenario) addrs(set []int) []string { return addrsOf(s.m, set) }
@@ -232,37 +242,9 @@ func newScenario(m *Material, cons string, A, B, Z []int) (*scenario, error) {
 	s := &scenario{Cons: cons, A: A, B: B, Z: Z, m: m, log: sn.NewCapLogger()}
 	led := &sledger{byID: map[string]*sblock{}}
 	led.snap = s.snap
-	n := len(A)
-	for h := int64(0); h <= tipHeight; h++ {
-		b := &sblock{height: h, id: blockID(h), proposer: s.m.ids[A[0]].Address}
-		if h > 0 {
-			b.pre = blockID(h - 1)
-		}
-		st := common.ConsensusStorage{}
-		if cons == "tdpos" {
-			term := (h-1)/4 + 1
-			slot := (h - 1) % 4
-			if h == 0 {
-				term, slot = 1, 0
-				b.ts = (initTimeMs - 1000) * int64(time.Millisecond)
-			} else {
-				b.ts = tdposSlotTime(n, term, slot)
-			}
-			st.CurTerm = term
-			st.CurBlockNum = slot
-		} else {
-			b.ts = (initTimeMs + h*xpoaPeriod) * int64(time.Millisecond)
-		}
-		if h > 1 {
-			// honest blocks carry a justify for their parent (content irrelevant here)
-			q, _ := common.NewToOldQC(&bft.QuorumCert{VoteInfo: &bft.VoteInfo{ProposalId: blockID(h - 1), ProposalView: h - 1, ParentId: blockID(h - 2), ParentView: h - 2}})
-			st.Justify = q
-		}
-		b.storage, _ = json.Marshal(st)
-		led.blocks = append(led.blocks, b)
-		led.byID[hex.EncodeToString(b.id)] = b
-	}
 	s.led = led
+	s.buildChain()
+	n := len(A)
 	me := m.ids[A[0]]
 	cc := cctx.ConsensusCtx{BaseCtx: xctx.BaseCtx{XLog: s.log}, BcName: "xuper", Address: m.AddressOf(me), Crypto: sn.Crypto(),
 		Contract: &smanager{m: map[string]contract.KernMethod{}}, Ledger: &ledgerAdapter{led}, Network: &snet{account: me.Address}}
@@ -284,6 +266,52 @@ func newScenario(m *Material, cons string, A, B, Z []int) (*scenario, error) {
 		return nil, fmt.Errorf("%s constructor returned nil: %v", cons, s.log.Tail(5))
 	}
 	return s, nil
+}
+
+// buildChain (re)builds the stub ledger's main chain for the scenario's current branch.
+func (s *scenario) buildChain() {
+	led := s.led
+	led.blocks = nil
+	led.byID = map[string]*sblock{}
+	cons, A := s.Cons, s.A
+	n := len(A)
+	for h := int64(0); h <= tipHeight; h++ {
+		b := &sblock{height: h, id: s.bid(h), proposer: s.m.ids[A[0]].Address}
+		if h > 0 {
+			b.pre = s.bid(h - 1)
+		}
+		st := common.ConsensusStorage{}
+		if cons == "tdpos" {
+			term := (h-1)/4 + 1
+			slot := (h - 1) % 4
+			if h == 0 {
+				term, slot = 1, 0
+				b.ts = (initTimeMs - 1000) * int64(time.Millisecond)
+			} else {
+				b.ts = tdposSlotTime(n, term, slot)
+			}
+			st.CurTerm = term
+			st.CurBlockNum = slot
+		} else {
+			b.ts = (initTimeMs + h*xpoaPeriod) * int64(time.Millisecond)
+		}
+		if h > 1 {
+			// honest blocks carry a justify for their parent (content irrelevant here)
+			q, _ := common.NewToOldQC(&bft.QuorumCert{VoteInfo: &bft.VoteInfo{ProposalId: s.bid(h - 1), ProposalView: h - 1, ParentId: s.bid(h - 2), ParentView: h - 2}})
+			st.Justify = q
+		}
+		b.storage, _ = json.Marshal(st)
+		led.blocks = append(led.blocks, b)
+		led.byID[hex.EncodeToString(b.id)] = b
+	}
+}
+
+// reorganise switches the stub ledger to another branch (other block ids from height 3 on) on which
+// the validator set in force for view 12 is A2; the consensus instance stays the same.
+func (s *scenario) reorganise(fork int, A2 []int) {
+	s.fork = fork
+	s.A = A2
+	s.buildChain()
 }
 
 // ledgerAdapter gives CreateSnapshot / GetTipSnapshot the XMReader flavour.
@@ -319,17 +347,21 @@ type BcsCase struct {
 
 func (s *scenario) run(c *BcsCase, rng *rand.Rand) caseResult {
 	m := s.m
-	w := makeWorld(s.A, blockID(tipHeight), blockID(tipHeight-1))
-	w.P = blockID(tipHeight + 1)
+	signSet := s.A
+	if s.signers != nil {
+		signSet = s.signers
+	}
+	w := makeWorld(signSet, s.bid(tipHeight), s.bid(tipHeight-1))
+	w.P = s.bid(tipHeight + 1)
 	signs, desc := m.Build(w, c.Toks, c.Fresh, rng)
-	justify := &bft.QuorumCert{VoteInfo: &bft.VoteInfo{ProposalId: blockID(tipHeight), ProposalView: c.ClaimedView, ParentId: blockID(tipHeight - 1), ParentView: tipHeight - 1},
+	justify := &bft.QuorumCert{VoteInfo: &bft.VoteInfo{ProposalId: s.bid(tipHeight), ProposalView: c.ClaimedView, ParentId: s.bid(tipHeight - 1), ParentView: tipHeight - 1},
 		SignInfos: signs}
 	old, err := common.NewToOldQC(justify)
 	if err != nil {
 		panic(err)
 	}
 	st := common.ConsensusStorage{Justify: old}
-	blk := &sblock{height: tipHeight + 1, id: blockID(tipHeight + 1), pre: blockID(tipHeight), proposer: m.ids[s.B[c.ProposerPos]].Address}
+	blk := &sblock{height: tipHeight + 1, id: s.bid(tipHeight + 1), pre: s.bid(tipHeight), proposer: m.ids[s.B[c.ProposerPos]].Address}
 	if s.Cons == "tdpos" {
 		st.CurTerm = 4
 		slot := int64(c.ProposerPos*tdposBlkN) + int64(rng.Intn(tdposBlkN))
